@@ -709,6 +709,18 @@ class Analysis:
                     return None
         return (v.args[0], memo)
 
+    def _is_new_predicate(self, call: ast.Call) -> bool:
+        """`recv.pred()` whose only callee is a method the reference tree does not have (a predicate somebody introduced):
+        it is read through, like any other unknown helper."""
+        kf = getattr(self.prog, "known_functions", None)
+        if kf is None or call.args or call.keywords or not isinstance(call.func, ast.Attribute) or not hasattr(call, "_module"):
+            return False
+        try:
+            cs = [c for c in self.res.callees(call) if c in self.prog.functions]
+        except Exception:
+            return False
+        return len(cs) == 1 and cs[0] not in kf
+
     def pred_body(self, call: ast.Call, fi: Optional[FunctionInfo]) -> Optional[ast.expr]:
         """If `call` is `recv.pred()` (no arguments) of a repository method whose body is a single
         `return <expr>`, the returned expression with `self` replaced by the receiver."""
@@ -738,7 +750,7 @@ class Analysis:
     def dnf(self, e: ast.expr, positive: bool, fi: Optional[FunctionInfo], inline=True, _depth=0, inline_preds=False, xstop=None) -> List[Conj]:
         """DNF of a test expression (negated when positive=False). Local
         booleans with a single assignment are inlined."""
-        if inline_preds and isinstance(e, ast.Call) and _depth < 4:
+        if isinstance(e, ast.Call) and _depth < 4 and (inline_preds or self._is_new_predicate(e)):
             pb = self.pred_body(e, fi)
             if pb is not None:
                 return self.dnf(pb, positive, fi, inline=False, _depth=_depth + 1, inline_preds=True)
@@ -768,6 +780,17 @@ class Analysis:
                 and e.comparators[0].value is None and isinstance(e.left, ast.Constant):
             truth = (e.left.value is None) == isinstance(e.ops[0], ast.Is)
             return [frozenset()] if truth == positive else []
+        # (a, b) == (c, d)  ≡  a == c and b == d   (tuple displays of equal length)
+        if isinstance(e, ast.Compare) and len(e.ops) == 1 and isinstance(e.ops[0], (ast.Eq, ast.NotEq)) and isinstance(e.left, ast.Tuple) \
+                and isinstance(e.comparators[0], ast.Tuple) and len(e.left.elts) == len(e.comparators[0].elts) and e.left.elts \
+                and not any(isinstance(x, ast.Starred) for x in e.left.elts + e.comparators[0].elts):
+            parts = [ast.copy_location(ast.Compare(left=l_, ops=[ast.Eq()], comparators=[r_]), e) for l_, r_ in zip(e.left.elts, e.comparators[0].elts)]
+            for p_ in parts:
+                for sub_ in ast.walk(p_):
+                    if not hasattr(sub_, "_module") and hasattr(e, "_module"):
+                        sub_._module = e._module  # type: ignore[attr-defined]
+            conj_ = ast.BoolOp(op=ast.And(), values=parts) if len(parts) > 1 else parts[0]
+            return self.dnf(conj_, positive == isinstance(e.ops[0], ast.Eq), fi, inline, _depth, inline_preds, xstop)
         # isinstance(x, (A, B))  ≡  isinstance(x, A) or isinstance(x, B)
         if isinstance(e, ast.Call) and isinstance(e.func, ast.Name) and e.func.id == "isinstance" and len(e.args) == 2 and isinstance(e.args[1], ast.Tuple) and e.args[1].elts:
             alts = [ast.copy_location(ast.Call(func=e.func, args=[e.args[0], t_], keywords=[]), e) for t_ in e.args[1].elts]
